@@ -12,6 +12,7 @@ mod operand;
 mod reflect;
 mod spirv_enums;
 mod table;
+mod traverse;
 
 use serde_json::{json, Value};
 use std::path::PathBuf;
@@ -61,6 +62,7 @@ fn main() {
     out.insert("operand".into(), operand::extract(&mut cx));
     out.insert("engine".into(), engine::extract(&mut cx));
     out.insert("builder".into(), builder::extract(&mut cx));
+    out.insert("traverse".into(), traverse::extract(&mut cx));
     out.insert("failures".into(), json!(cx.failures));
     let v = Value::Object(out);
     std::fs::write(&args[2], serde_json::to_string_pretty(&v).unwrap()).unwrap();
